@@ -99,14 +99,14 @@ Proof.
 Qed.
 Lemma safe_copy_slice base s : safe base (copy_slice s) (fresh base).
 Proof. unfold copy_slice; eapply safe_bind_any; [apply safe_load_slice|]; intros sl; apply safe_alloc. Qed.
-Definition fresh_ps (base : nat) (r : pslice) : Prop := fresh base (ps_plate r) /\ fresh base (ps_arr r).
+Definition fresh_ps (base : nat) (r : pslice) : Prop := fresh base (ps_plate r) /\ fresh base (ps_arr r) /\ fresh base (ps_slice r).
 Lemma safe_private_slice base s : safe base (private_slice s) (fresh_ps base).
 Proof.
   unfold private_slice; eapply safe_bind; [apply safe_copy_slice|]; intros s' Hs'.
   eapply safe_bind_any; [apply safe_load_slice|]; intros sl.
   eapply safe_bind; [apply safe_deepcopy_plate|]; intros pa [Hp Ha].
   eapply safe_bind_any; [apply safe_store; exact Hs'|]; intros _.
-  apply safe_ret; split; assumption.
+  apply safe_ret; split; [assumption | split; assumption].
 Qed.
 Lemma safe_getitem base p rg : safe base (h_getitem p rg) (fresh base).
 Proof.
@@ -174,7 +174,7 @@ Proof.
   unfold h_transfer_sc.
   eapply safe_bind_any; [apply safe_as_slice|]; intros s0.
   eapply safe_bind; [apply safe_copy_cont|]; intros to Hto.
-  eapply safe_bind; [apply safe_private_slice|]; intros sp [Hp Ha].
+  eapply safe_bind; [apply safe_private_slice|]; intros sp (Hp & Ha & _).
   eapply safe_bind_any; [apply safe_nonempty|]; intros _.
   eapply safe_bind; [apply (safe_fold base (fresh base)); [|exact Ha|exact Hto]|].
   - intros a w _. eapply safe_bind; [apply safe_transfer_cc|]; intros r [H1 H2]. apply safe_ret; cbn; split; assumption.
@@ -196,7 +196,7 @@ Proof.
   unfold h_transfer_cs.
   eapply safe_bind_any; [apply safe_as_slice|]; intros t0.
   eapply safe_bind_any; [apply safe_load_cont|]; intros _.
-  eapply safe_bind; [apply safe_private_slice|]; intros tp [Hp Ha].
+  eapply safe_bind; [apply safe_private_slice|]; intros tp (Hp & Ha & _).
   destruct (region_idx (ps_nc tp) (ps_rg tp)) as [|i idxs]; cbn [nonempty].
   - eapply (safe_bind _ _ _ (fun _ => False)); [apply safe_raise | intros ? []].
   - eapply (safe_bind_any _ _ _ (fun _ => True)); [apply safe_ret; exact I|]; intros _.
@@ -283,7 +283,7 @@ Qed.
 Lemma safe_remove_s base t w : safe base (h_remove_s cf t w) (fresh base).
 Proof.
   unfold h_remove_s. eapply safe_bind_any; [apply safe_as_slice|]; intros s0.
-  eapply safe_bind; [apply safe_private_slice|]; intros sp [Hp Ha].
+  eapply safe_bind; [apply safe_private_slice|]; intros sp (Hp & Ha & _).
   eapply safe_bind_any; [apply safe_nonempty|]; intros _.
   eapply safe_bind_any; [apply safe_apply; [intros; apply safe_remove_c | exact Ha]|]; intros _.
   apply safe_ret; exact Hp.
@@ -291,7 +291,7 @@ Qed.
 Lemma safe_fill_s base t s q : safe base (h_fill_s cf t s q) (fresh base).
 Proof.
   unfold h_fill_s. eapply safe_bind_any; [apply safe_as_slice|]; intros s0.
-  eapply safe_bind; [apply safe_private_slice|]; intros sp [Hp Ha].
+  eapply safe_bind; [apply safe_private_slice|]; intros sp (Hp & Ha & _).
   eapply safe_bind_any; [apply safe_nonempty|]; intros _.
   eapply safe_bind_any; [apply safe_apply; [intros; apply safe_fill_c | exact Ha]|]; intros _.
   apply safe_ret; exact Hp.
@@ -328,6 +328,72 @@ Lemma safe_var base vars v : safe base (var vars v) (fun _ => True).
 Proof. unfold var; destruct (nth_error vars v); [apply safe_ret; exact I | apply safe_raise]. Qed.
 End Ops.
 
+(* ---- recipes ---- *)
+Lemma Forall_set_nth_fresh base n a (l : list addr) : Forall (fresh base) l -> fresh base a -> Forall (fresh base) (set_nth n a l).
+Proof.
+  revert n; induction l as [|x l IH]; intros [|n] Hl Ha; simpl; auto; inversion Hl; subst; constructor; auto.
+Qed.
+Section RecipeOps.
+Variable cf : cfg.
+Lemma safe_res_get base res n : Forall (fresh base) res -> safe base (res_get res n) (fresh base).
+Proof.
+  intros H. unfold res_get. destruct (nth_error res n) as [a|] eqn:E; [|apply safe_raise].
+  apply safe_ret. eapply Forall_forall; [exact H | eapply nth_error_In; exact E].
+Qed.
+Lemma safe_resolve base vars res r : Forall (fresh base) res -> safe base (resolve vars res r) (fresh base).
+Proof.
+  intros H. destruct r as [n|v n]; cbn [resolve]; [apply safe_res_get; exact H|].
+  eapply safe_bind_any; [apply safe_var|]; intros sl.
+  eapply safe_bind; [apply safe_private_slice|]; intros sp (_ & _ & Hs).
+  eapply safe_bind_any; [apply safe_res_get; exact H|]; intros p.
+  eapply safe_bind_any; [apply safe_store; exact Hs|]; intros _.
+  apply safe_ret; exact Hs.
+Qed.
+Lemma safe_transfer_any base sa da q : safe base (h_transfer_any cf sa da q) (fresh2 base).
+Proof.
+  unfold h_transfer_any.
+  eapply safe_bind_any; [apply safe_load|]; intros sc.
+  eapply safe_bind_any; [apply safe_load|]; intros dc.
+  destruct dc, sc; try apply safe_raise;
+    try (destruct (Nat.eqb sa da); [apply safe_raise|]);
+    first [apply safe_transfer_cc' | apply safe_transfer_sc | apply safe_transfer_ss | apply safe_transfer_cs].
+Qed.
+Lemma safe_remove_any base ta w : safe base (h_remove_any cf ta w) (fresh base).
+Proof.
+  unfold h_remove_any. eapply safe_bind_any; [apply safe_load|]; intros [ | | | ]; try apply safe_raise;
+    first [apply safe_remove_c | apply safe_remove_s].
+Qed.
+Lemma safe_fill_any base ta s q : safe base (h_fill_any cf ta s q) (fresh base).
+Proof.
+  unfold h_fill_any. eapply safe_bind_any; [apply safe_load|]; intros [ | | | ]; try apply safe_raise;
+    first [apply safe_fill_c | apply safe_fill_s].
+Qed.
+Lemma safe_rstep base vars res st : Forall (fresh base) res -> safe base (h_rstep cf vars res st) (Forall (fresh base)).
+Proof.
+  intros H. destruct st; cbn [h_rstep].
+  - eapply safe_bind_any; [apply safe_resolve; exact H|]; intros sa.
+    eapply safe_bind_any; [apply safe_resolve; exact H|]; intros da.
+    eapply safe_bind; [apply safe_transfer_any|]; intros r [H1 H2].
+    apply safe_ret. apply Forall_set_nth_fresh; [apply Forall_set_nth_fresh|]; assumption.
+  - eapply safe_bind_any; [apply safe_resolve; exact H|]; intros ta.
+    eapply safe_bind; [apply safe_remove_any|]; intros a Ha. apply safe_ret. apply Forall_set_nth_fresh; assumption.
+  - eapply safe_bind_any; [apply safe_res_get; exact H|]; intros ta.
+    eapply safe_bind; [apply safe_fill_any|]; intros a Ha. apply safe_ret. apply Forall_set_nth_fresh; assumption.
+  - eapply safe_bind_any; [apply safe_res_get; exact H|]; intros ta.
+    eapply safe_bind; [apply safe_dilute|]; intros a Ha. apply safe_ret. apply Forall_set_nth_fresh; assumption.
+Qed.
+Lemma safe_rsteps base vars steps : forall res, Forall (fresh base) res -> safe base (h_rsteps cf vars res steps) (Forall (fresh base)).
+Proof.
+  induction steps as [|st t IH]; intros res H; cbn [h_rsteps]; [apply safe_ret; exact H|].
+  eapply safe_bind; [apply safe_rstep; exact H|]; intros res' H'. apply IH; exact H'.
+Qed.
+Lemma safe_recipe base vars uses steps : safe base (h_recipe cf vars uses steps) (Forall (fresh base)).
+Proof.
+  unfold h_recipe. eapply safe_bind; [apply safe_mapM; intros v; eapply safe_bind_any; [apply safe_var|]; intros a; apply safe_uses|].
+  intros res H. apply safe_rsteps; exact H.
+Qed.
+End RecipeOps.
+
 (* ---- every operation of the program DSL *)
 Theorem hstep_safe cf base vars o : safe base (hstep cf vars o) (Forall (fresh base)).
 Proof.
@@ -358,6 +424,7 @@ Proof.
   - eapply safe_bind_any; [apply safe_var|]; intros a. apply P2, safe_solution_c.
   - eapply safe_bind_any; [apply safe_var|]; intros a. apply P2, safe_solfrom.
   - eapply safe_bind_any; [apply safe_var|]; intros a. apply P1, safe_uses.
+  - apply safe_recipe.
 Qed.
 
 (* the statement without the Hoare wrapper: a call started in heap h -- returning or raising -- leaves every
